@@ -4,6 +4,7 @@ CONSTANTS
   Types = {"A", "B"}
   MaxCalls = 1
   EarlyUnlock = FALSE
+  Registry = FALSE
   Locked = FALSE
   Emit = TRUE
 CONSTRAINT EmitSched
